@@ -143,20 +143,21 @@ func (p *FaultProxy) Hole(d time.Duration) {
 	}
 }
 
-// Passing reports whether the proxy currently forwards traffic unconditionally: no refusal
-// window, no black hole, nothing armed.
+// Passing reports whether the proxy forwards traffic right now: no refusal window and no black
+// hole in effect. (Armed cuts and unconsumed plan entries do not count: until they fire the
+// traffic passes, and their firing is visible in Stats.)
 func (p *FaultProxy) Passing() bool {
 	now := time.Now()
 	p.mu.Lock()
 	defer p.mu.Unlock()
-	if len(p.plan) > 0 || now.Before(p.refuseUntil) {
+	if now.Before(p.refuseUntil) {
 		return false
 	}
 	for _, c := range p.conns {
 		c.mu.Lock()
-		armed := c.closedAt.IsZero() && (c.plan != ConnPlan{} || now.Before(c.holeUntil))
+		holed := c.closedAt.IsZero() && now.Before(c.holeUntil)
 		c.mu.Unlock()
-		if armed {
+		if holed {
 			return false
 		}
 	}
